@@ -141,7 +141,7 @@ type histEnv struct {
 
 func (e *histEnv) digestArgs() string {
 	var sb strings.Builder
-	for _, k := range []string{"leaf", "or", "notand", "fn", "andnull", "nested", "colIF", "colFI"} {
+	for _, k := range []string{"leaf", "or", "notand", "fn", "andnull", "nested", "colIF", "colFI", "orbool", "orbool2"} {
 		sb.WriteString(e.clauses[k].String())
 		sb.WriteByte(';')
 	}
@@ -173,6 +173,9 @@ func newHistEnv() *histEnv {
 		"andnull": qframe.And(qframe.Null(), qframe.Filter{Column: "i", Comparator: ">", Arg: 1}),
 		"nested":  qframe.And(qframe.Or(qframe.Null()), qframe.And(qframe.Null(), qframe.Filter{Column: "k", Comparator: "=", Arg: 1}), qframe.Filter{Column: "i", Comparator: "<", Arg: 3}),
 		// column-to-column comparisons across int and float (one side is promoted for the comparison)
+		// an Or whose first member is a plain test of the bool column (and the same members the other way round)
+		"orbool":  qframe.Or(qframe.Filter{Column: "b", Comparator: "=", Arg: true}, qframe.Filter{Column: "i", Comparator: ">", Arg: 0}),
+		"orbool2": qframe.Or(qframe.Filter{Column: "i", Comparator: ">", Arg: 0}, qframe.Filter{Column: "b", Comparator: "=", Arg: true}),
 		"colIF": qframe.Filter{Column: "i", Comparator: ">", Arg: types.ColumnName("f")},
 		"colFI": qframe.Filter{Column: "f", Comparator: "<=", Arg: types.ColumnName("k")},
 	}
@@ -297,6 +300,10 @@ func c01Ops() []histOp {
 		frameOp("Filter(fn)", func(e *histEnv, q qframe.QFrame) qframe.QFrame { return q.Filter(e.clauses["fn"]) }),
 		frameOp("Filter(And(Null,leaf))", func(e *histEnv, q qframe.QFrame) qframe.QFrame { return q.Filter(e.clauses["andnull"]) }),
 		frameOp("Filter(And(Or(Null),And(Null,leaf),leaf))", func(e *histEnv, q qframe.QFrame) qframe.QFrame { return q.Filter(e.clauses["nested"]) }),
+		frameOp("Filter(Or(b=true, i>0))", func(e *histEnv, q qframe.QFrame) qframe.QFrame { return q.Filter(e.clauses["orbool"]) }),
+		frameOp("Filter(Or(i>0, b=true))", func(e *histEnv, q qframe.QFrame) qframe.QFrame { return q.Filter(e.clauses["orbool2"]) }),
+		frameOp("Eval(cst=5)", func(e *histEnv, q qframe.QFrame) qframe.QFrame { return q.Eval("cst", qframe.Val(5)) }),
+		frameOp("Eval(cstf=0.5)", func(e *histEnv, q qframe.QFrame) qframe.QFrame { return q.Eval("cstf", qframe.Val(0.5)) }),
 		frameOp("Filter(i>col f)", func(e *histEnv, q qframe.QFrame) qframe.QFrame { return q.Filter(e.clauses["colIF"]) }),
 		frameOp("Filter(f<=col k)", func(e *histEnv, q qframe.QFrame) qframe.QFrame { return q.Filter(e.clauses["colFI"]) }),
 		frameOp("Sort(k)", func(e *histEnv, q qframe.QFrame) qframe.QFrame { return q.Sort(e.orders1...) }),
